@@ -16,6 +16,7 @@ import Apko.Proofs.Lemmas.FSPosixSim
 import Apko.Proofs.Lemmas.FSPosixLF
 import Apko.Proofs.Lemmas.FSDisk
 import Apko.Proofs.Lemmas.FSShare
+import Apko.Proofs.Lemmas.FSReopen
 import Apko.Generated.FS
 /-! C17 — the virtual file systems behave like a file system (theorems over `Model/FS.lean`) -/
 namespace Apko.C17
@@ -935,5 +936,136 @@ theorem tie_stmtsTarfs_Size : Generated.stmtsTarfs_Size = (["if m.node.te != nil
 theorem tie_teTests_memfs : Generated.teTestsMemfs = ([] : List String) := by rfl
 theorem tie_teTests_tarfs : Generated.teTestsTarfs = (["anode.te != nil && len(anode.data) == 0 && anode.te.header.Size != 0",
   "m.node.te != nil && len(m.data) == 0"] : List String) := by rfl
+
+/-! ### a second `DirFS` over the same directory (re-open histories, kind `dirfs-reopen`)
+
+A work directory is used more than once.  The overlay of the NEW `DirFS` value is rebuilt by the constructor's walk
+(`reopenFS`, per node what the callback makes of it: `tie_dirfsCtorCallback`) — provided the walk enters the
+directory at all, which depends on how the constructor names the root (`tie_dirfsCtorWalk`, `RootWalk`).
+Full statement (**dirfs_reopen_complete**): for EVERY way the directory may be named (a symbolic link to it
+included), every path resolves in the new overlay as it resolved before, every listing has the same names, kinds
+and sizes, `Readlink` answers the same, `Stat` / `Lstat` answer with the same name, size and kind, the bytes are
+the same.  Proved for the constructor the code has (`rootWalkOf Generated.dirfsCtorWalk = some .openDot`); with the
+root `Lstat`ed (`filepath.WalkDir(dir, …)`) it is false for a directory named through a link
+(`dirfs_ctor_lstat_root_incomplete`). -/
+
+/-- the walk the constructor runs today enters the directory however it is named -/
+theorem dirfs_ctor_walk_follows_root : rootWalkOf Generated.dirfsCtorWalk = some .openDot := by decide
+
+theorem dirfs_ctor_overlay (w : RootWalk) (hw : rootWalkOf Generated.dirfsCtorWalk = some w) (dirIsLink : Bool) (fs : FS) :
+    ctorOverlay w dirIsLink fs = reopenFS fs := by
+  rw [dirfs_ctor_walk_follows_root] at hw
+  cases hw
+  simp [ctorOverlay, RootWalk.enters]
+
+/-- **reopen_resolves**: every path resolves to the node it resolved to, or fails with the error it failed with -/
+theorem reopen_resolves (c : Cfg) (fs : FS) (p : Text) : getNode c (reopenFS fs) p = getNode c fs p :=
+  reopenFS_getNode c fs p
+
+/-- **reopen_readdir_complete**: a listing of the re-opened file system has the entries it had — same names in the
+same order, same kinds, same sizes — and fails exactly when it failed -/
+theorem reopen_readdir_complete (c : Cfg) (fs : FS) (p : Text) :
+    (∀ es, (step c fs (.readDir p)).2 = .ok (.entries es) →
+      ∃ es2, (step c (reopenFS fs) (.readDir p)).2 = .ok (.entries es2) ∧ es2.map statShape = es.map statShape) ∧
+    (∀ e, (step c fs (.readDir p)).2 = .err e → (step c (reopenFS fs) (.readDir p)).2 = .err e) := by
+  simp only [step, reopenFS_getNode]
+  cases hg : getNode c fs p with
+  | error e => simp
+  | ok i =>
+    simp only [reopenFS_dir, reopenFS_children]
+    by_cases hd : (fs.node i).dir = true
+    · simp only [hd, Bool.not_true, Bool.false_eq_true, if_false]
+      refine ⟨?_, by simp⟩
+      intro es hes
+      refine ⟨_, rfl, ?_⟩
+      cases hes
+      simp only [List.map_map]
+      apply List.map_congr_left
+      intro e _
+      exact statShape_reopen c fs e.2 e.1 _
+    · simp [hd]
+
+/-- **reopen_readlink**: `Readlink` answers what it answered -/
+theorem reopen_readlink (c : Cfg) (fs : FS) (p : Text) :
+    (step c (reopenFS fs) (.readlink p)).2 = (step c fs (.readlink p)).2 := by
+  simp only [step, readlinkOp, parentOf, reopenFS_getNode, FS.lookup, reopenFS_children, reopenFS_isSymlink, reopenFS_target]
+  cases getNode c fs (dir p) with
+  | error e => rfl
+  | ok i =>
+    simp only
+    cases (fs.node i).children.lookup (base p) with
+    | none => rfl
+    | some j => simp only; split <;> rfl
+
+/-- **reopen_stat**: `Stat` (and `Lstat`, which the overlay answers the same way) reports the same name, size and
+kind, and fails exactly when it failed -/
+theorem reopen_stat (c : Cfg) (fs : FS) (p : Text) :
+    (∀ s, (step c fs (.stat p)).2 = .ok (.stat s) →
+      ∃ s2, (step c (reopenFS fs) (.stat p)).2 = .ok (.stat s2) ∧ statShape s2 = statShape s) ∧
+    (∀ e, (step c fs (.stat p)).2 = .err e → (step c (reopenFS fs) (.stat p)).2 = .err e) ∧
+    (step c (reopenFS fs) (.lstat p)).2 = (step c (reopenFS fs) (.stat p)).2 := by
+  simp only [step, reopenFS_getNode]
+  cases hg : getNode c fs p with
+  | error e => simp
+  | ok i =>
+    refine ⟨?_, ?_⟩
+    · intro s hs
+      refine ⟨_, rfl, ?_⟩
+      cases hs
+      exact statShape_reopen c fs i p _
+    · simp
+
+/-- **reopen_content**: the bytes a name leads to are the bytes it led to (they never left the directory) -/
+theorem reopen_content (c : Cfg) (fs : FS) (p : Text) (i : Ino) (h : getNode c fs p = .ok i) :
+    getNode c (reopenFS fs) p = .ok i ∧ ((reopenFS fs).node i).data = (fs.node i).data :=
+  ⟨by rw [reopenFS_getNode, h], reopenFS_data fs i⟩
+
+/-- **dirfs_reopen_complete**: with the constructor the code has, for every way of naming the directory (through a
+symbolic link or not) the new overlay resolves, lists, reads links and stats like the directory's content -/
+theorem dirfs_reopen_complete (w : RootWalk) (hw : rootWalkOf Generated.dirfsCtorWalk = some w) (dirIsLink : Bool)
+    (c : Cfg) (fs : FS) (p : Text) :
+    getNode c (ctorOverlay w dirIsLink fs) p = getNode c fs p ∧
+    (∀ es, (step c fs (.readDir p)).2 = .ok (.entries es) →
+      ∃ es2, (step c (ctorOverlay w dirIsLink fs) (.readDir p)).2 = .ok (.entries es2) ∧
+        es2.map statShape = es.map statShape) ∧
+    (step c (ctorOverlay w dirIsLink fs) (.readlink p)).2 = (step c fs (.readlink p)).2 ∧
+    (∀ s, (step c fs (.stat p)).2 = .ok (.stat s) →
+      ∃ s2, (step c (ctorOverlay w dirIsLink fs) (.stat p)).2 = .ok (.stat s2) ∧ statShape s2 = statShape s) := by
+  rw [dirfs_ctor_overlay w hw]
+  exact ⟨reopen_resolves c fs p, (reopen_readdir_complete c fs p).1, reopen_readlink c fs p, (reopen_stat c fs p).1⟩
+
+/-- the state after `MkdirAll etc/apk`, `WriteFile etc/apk/world`, `Symlink apk/world etc/world` (a work directory
+after its first use) -/
+def reopenDemo : FS :=
+  (run (Cfg.impl .memfs) FS.empty [.mkdirAll "etc/apk".toList 0o755, .writeFile "etc/apk/world".toList "busybox\n".toList 0o644,
+    .symlink "apk/world".toList "etc/world".toList]).1
+
+/-- the hypotheses are met by a non-trivial value: the demo directory lists `apk` and `world` under `etc` -/
+example : getNode (Cfg.impl .memfs) (ctorOverlay .openDot true reopenDemo) "etc".toList = .ok 1 ∧
+    ((ctorOverlay .openDot true reopenDemo).node 1).children.map (·.1) = ["apk".toList, "world".toList] ∧
+    getNode (Cfg.impl .memfs) (ctorOverlay .openDot true reopenDemo) "etc/world".toList =
+      getNode (Cfg.impl .memfs) (ctorOverlay .openDot true reopenDemo) "etc/apk/world".toList ∧
+    (step (Cfg.impl .memfs) (ctorOverlay .openDot true reopenDemo) (.readlink "etc/world".toList)).2 = .ok (.text "apk/world".toList) := by
+  decide +kernel
+
+/-- **dirfs_ctor_lstat_root_incomplete**: were the root of the walk `Lstat`ed (`filepath.WalkDir(dir, …)`), a
+directory named through a symbolic link would come back EMPTY: the listing of the root loses `etc`, `Stat` of a
+file that is there says it does not exist -/
+theorem dirfs_ctor_lstat_root_incomplete :
+    (step (Cfg.impl .memfs) reopenDemo (.readDir ".".toList)).2 ≠ (step (Cfg.impl .memfs) (ctorOverlay .lstatRoot true reopenDemo) (.readDir ".".toList)).2 ∧
+    (step (Cfg.impl .memfs) (ctorOverlay .lstatRoot true reopenDemo) (.readDir ".".toList)).2 = .ok (.entries []) ∧
+    (step (Cfg.impl .memfs) (ctorOverlay .lstatRoot true reopenDemo) (.stat "etc/apk/world".toList)).2 = .err .notExist ∧
+    ctorOverlay .lstatRoot false reopenDemo = reopenFS reopenDemo := by decide +kernel
+
+/-- the constructor's walk: its root and its callback, statement by statement (`rootWalkOf`, `reopenNode`) -/
+theorem tie_dirfsCtorWalk : Generated.dirfsCtorWalk = (["root := os.DirFS(dir)", "fs.WalkDir(root, \".\", func)"] : List String) := by rfl
+theorem tie_dirfsCtorCallback : Generated.dirfsCtorCallback = (["if err != nil { return err }",
+  "if path == \".\" { return nil }",
+  "fi, err := d.Info()",
+  "if err != nil { return err }",
+  "mode := fi.Mode()",
+  "perm := mode.Perm()",
+  "switch mode.Type() { case fs.ModeDir: fullPerm := os.ModeDir | perm err = f.overrides.Mkdir(path, fullPerm) case fs.ModeSymlink: var target string target, err = os.Readlink(filepath.Join(dir, path)) if err == nil { err = f.overrides.Symlink(target, path) } case fs.ModeCharDevice: var dev int sys := fi.Sys() st1, ok1 := sys.(*syscall.Stat_t) st2, ok2 := sys.(*unix.Stat_t) switch { case ok1: dev = int(st1.Rdev) case ok2: dev = int(st2.Rdev) default: return fmt.Errorf(\"unsupported type %T\", sys) } err = f.overrides.Mknod(path, uint32(unix.S_IFCHR|mode), dev) default: var memFile File memFile, err = f.overrides.OpenFile(path, os.O_CREATE, perm) if memFile != nil { _ = memFile.Close() } }",
+  "return err"] : List String) := by rfl
 
 end Apko.C17
